@@ -123,7 +123,8 @@ def systematic(ctx, arm):
         return {"replayer": "c06_systematic", "input": {"size": size, "w": w, "u0": u0 if u0 is not None else 0.5}}
 
     ctx.verify(arm, TOOLS, "systematic_resample", setup, post, witness=witness, replayer="c06_systematic",
-               loops={0: LoopSpec(outer_rec, label="comb"), 1: LoopSpec(inner, label="advance")})
+               loops={0: LoopSpec(outer_rec, label="comb"),
+                      1: LoopSpec(inner, label="advance", variant=(lambda v: ("int", info["n"] - 1 - v["j"])) if ctx.prop == "C18" else None)})
 
 
 def counting_lemmas(ctx):
